@@ -306,35 +306,43 @@ class StreamDependsOnUse(Exception):
 
 def run_interleaved(ds, ops):
     """several iterators over ONE dataset object, advanced in the given interleaving (`mk`: iter(ds);
-    `n<j>`: next(it_j); `f<n>`: fastforward_epochs(n)).  Returns (recorded permutations in the order
-    they were drawn, per iterator [batches as text, ran into StopIteration])."""
-    log, its = [], []
+    `n<j>`: next(it_j); `f<n>`: fastforward_epochs(n); `c<j>`: iterator j is given up).  Returns
+    (recorded permutations in the order they were drawn, per iterator [batches as text, ran into
+    StopIteration], what every operation returned in the notation of the driver's `session`)."""
+    log, its, outs = [], [], []
     with recorded_randperm(log):
         for op in ops:
             if op == "mk":
                 its.append({"it": iter(ds), "got": [], "stopped": False})
+                outs.append("u")
             elif op[0] == "f":
                 ds.fastforward_epochs(int(op[1:]))
+                outs.append("u")
             elif op[0] == "c":
                 # the caller gives up on iterator j (break out of the loop, an exception in the
-                # training step, the iterator garbage-collected): nothing of the stream is undone
-                it = its[int(op[1:])]
-                if not it["stopped"] and not it.get("closed"):
-                    it["closed"] = True
-                    if op[1:].endswith("0") or len(it["got"]) % 2:
-                        it["it"].close()
-                    it["it"] = None
+                # training step, `close()`): nothing of the stream is undone.  (A generator that is
+                # garbage-collected is closed the same way.)
+                j = int(op[1:])
+                if j < len(its):
+                    its[j]["closed"] = True
+                    its[j]["it"].close()
                     gc.collect()
+                outs.append("u")
             else:
-                it = its[int(op[1:])]
-                if it.get("closed"):
+                j = int(op[1:])
+                if j >= len(its):
+                    outs.append("noiter")
                     continue
+                it = its[j]
                 try:
                     b = next(it["it"])
                     it["got"].append(batches_str([b.data]).split(" ", 1)[1])
+                    outs.append("b " + it["got"][-1])
                 except StopIteration:
-                    it["stopped"] = True
-    return log, [(x["got"], x["stopped"]) for x in its]
+                    if not it.get("closed"):
+                        it["stopped"] = True
+                    outs.append("stop")
+    return log, [(x["got"], x["stopped"]) for x in its], outs
 
 
 def gen_interleaving(rng):
@@ -363,7 +371,7 @@ def gen_interleaving(rng):
 
 def interleaved_line(c, ftable, ops):
     """the driver line that evaluates C20_interleaved on what the real iterators returned"""
-    log, its = run_interleaved(make_dataset(c), ops)
+    log, its, outs = run_interleaved(make_dataset(c), ops)
     # the seed alone decides the sequence of shuffles: a twin that only fast-forwards draws the same
     log2 = []
     with recorded_randperm(log2):
@@ -380,6 +388,10 @@ def interleaved_line(c, ftable, ops):
         len(started),
         " ".join("%d %d%s" % (1 if st else 0, len(got), "".join(" " + g for g in got)) for got, st in started),
     )
+    # the same operations run by the model (`Sess.run`, the recorded draws replayed in order)
+    sline = "dataset session %d %s %d %s %s %s" % (
+        c["b"], "none" if c["batches"] is None else str(c["batches"]), len(log), " ".join(perm_str(pl) for _, pl in log), ftable, " ".join(ops))
+    interleaved_line.last_session = (" ".join(sline.split()), "ok " + ";".join(outs))
     return " ".join(line.split()), its
 
 
@@ -402,7 +414,7 @@ def tie(ctx):
     divs = []
     tmp = tempfile.mkdtemp(prefix="c20-")
     try:
-        lines, impl, meta, inter, xjobs = [], [], [], [], []
+        lines, impl, meta, inter, xjobs, sessions = [], [], [], [], [], []
         for serial in range(n_file):
             c = gen_file_case(ctx, tmp, serial)
             ftable = table_str(c["data"])
@@ -490,6 +502,7 @@ def tie(ctx):
                 try:
                     iline, its = interleaved_line(c, ftable, ops)
                     inter.append((idesc, iline, its))
+                    sessions.append((idesc,) + interleaved_line.last_session)
                 except StreamDependsOnUse as e:
                     divs.append(Divergence("impl.interleaved", idesc, str(e)[:600], "the sequence of epochs depends on the seed alone"))
                 except Exception as e:
@@ -546,6 +559,12 @@ def tie(ctx):
         for (idesc, _l, its), out in zip(inter, driver.run_lines([l for _d, l, _i in inter])):
             if out != "ok":
                 divs.append(Divergence("impl.interleaved", idesc, "%s: iterators returned %s" % (out, str(its)[:300]), "every iterator yields one epoch of the sequential stream"))
+        # operation by operation: what every `next` returned against the model's `Sess.run`
+        for (idesc, _l, io), mo in zip(sessions, driver.run_lines([l for _d, l, _i in sessions])):
+            ctx.count("file:session-operations-compared", len(idesc["ops"]))
+            if io != mo:
+                k = next((n for n, (a, b) in enumerate(zip(io[3:].split(";"), mo[3:].split(";"))) if a != b), -1)
+                divs.append(Divergence("corr.dataset.session", idesc, "operation %d (%s): %s" % (k, idesc["ops"][k] if 0 <= k < len(idesc["ops"]) else "?", io[:400]), mo[:400]))
         if meta:
             ctx.sample({k: meta[0][k] for k in ("fields", "b", "batches", "seed", "perms")})
 
